@@ -50,7 +50,11 @@ impl VerificationThread {
         transaction.generate(&public_key, 0, 0);
 
         // TODO : should we skip validation against utxo if we don't have the full utxo ?
-        if !transaction.validate(&blockchain.utxoset, &blockchain, true) {
+        // fee, ATR and issuance transactions only exist inside blocks. validate() does not ask
+        // them for a signature, so they are not taken from peers
+        if transaction.is_only_valid_inside_block()
+            || !transaction.validate(&blockchain.utxoset, &blockchain, true)
+        {
             debug!(
                 "transaction : {:?} not valid",
                 transaction.signature.to_hex()
@@ -83,7 +87,9 @@ impl VerificationThread {
                 .filter_map(|mut transaction| {
                     transaction.generate(&public_key, 0, 0);
 
-                    if !transaction.validate(&blockchain.utxoset, &blockchain, true) {
+                    if transaction.is_only_valid_inside_block()
+                        || !transaction.validate(&blockchain.utxoset, &blockchain, true)
+                    {
                         debug!(
                             "transaction : {:?} not valid",
                             transaction.signature.to_hex()
